@@ -23,6 +23,15 @@ impl UF {
             None => "abs".into(),
             Some(RV::Integer(1)) => "v1".into(),
             Some(RV::Integer(2)) => "v2".into(),
+            Some(RV::Object(o)) if o.len() == 1 && o.contains_key("g") => match o.get("g") {
+                Some(RV::Object(g)) => match (g.len(), g.get("f")) {
+                    (0, _) => "objg0".into(),
+                    (1, Some(RV::Integer(1))) => "objg1".into(),
+                    (1, Some(RV::Integer(2))) => "objg2".into(),
+                    _ => format!("{:?}", o),
+                },
+                _ => format!("{:?}", o),
+            },
             Some(RV::Object(o)) => match (o.len(), o.get("f")) {
                 (0, _) => "obj0".into(),
                 (1, Some(RV::Integer(1))) => "obj1".into(),
@@ -71,6 +80,7 @@ impl Model for UF {
                 let v = match l["v"].as_str().unwrap() {
                     "v1" => RV::Integer(1),
                     "v2" => RV::Integer(2),
+                    "objg0" => RV::Object([("g".to_string(), RV::Object(HashMap::new()))].into_iter().collect()),
                     _ => RV::Object(HashMap::new()),
                 };
                 if l["via"].as_str() == Some("nested") {
@@ -80,6 +90,7 @@ impl Model for UF {
                     true
                 }
             }
+            "setdeep" => self.f.set_nested(&format!("{}.g.f", k), RV::Integer(l["x"].as_i64().unwrap())).is_ok(),
             "setnested" => self.f.set_nested(&format!("{}.f", k), RV::Integer(l["x"].as_i64().unwrap())).is_ok(),
             "remove" => {
                 self.f.remove(k);
